@@ -12,14 +12,16 @@ prop=[json.loads(l) for l in open('/verif/properties.jsonl') if l.strip() and js
 for k in ('added_in_round','source'): prop.pop(k,None)
 brief=open('/verif/tools/NEUTRAL_BRIEF.md').read().split('-----------------------------------------------------------------------------',1)[1]
 import os
-prev='/verif/neutral/%s/neutral.json'%id
-if os.environ.get('SPREAD') and os.path.exists(prev):
+import glob
+prevs=sorted(glob.glob('/verif/neutral/%s/neutral*.json'%id))
+if os.environ.get('SPREAD') and prevs:
     fns=[]
-    try:
-        for r in json.load(open(prev)):
-            for f in r.get('functions',[]):
-                if f not in fns: fns.append(f)
-    except Exception: pass
+    for prev in prevs:
+        try:
+            for r in json.load(open(prev)):
+                for f in r.get('functions',[]):
+                    if f not in fns: fns.append(f)
+        except Exception: pass
     if fns:
         extra="\n\nOther engineers already delivered such patches touching the functions below. Spread yours over OTHER functions, files and mechanisms of the property's code wherever possible (reuse at most two of these), so that together the patches cover the property's code broadly:\n\n"+"\n".join("* `%s`"%f for f in fns[:60])+"\n"
         a=brief.index('Rules for every patch:')
